@@ -45,6 +45,7 @@ func Module(rt *rapid.T, cfg Cfg) (*am.Module, map[string]int) {
 	g.aliases()
 	g.attrGroups()
 	bodies := append([]*am.Fun{}, g.M.Funcs...)
+	g.ifuncs()
 	for _, f := range bodies {
 		if !f.Decl {
 			g.funcDef(f)
@@ -52,6 +53,7 @@ func Module(rt *rapid.T, cfg Cfg) (*am.Module, map[string]int) {
 	}
 	g.funcletFunc()
 	g.blockAddrGlobal()
+	g.fnAddrGlobals()
 	g.gepGlobals()
 	g.useListOrders()
 	g.metadata()
@@ -59,6 +61,7 @@ func Module(rt *rapid.T, cfg Cfg) (*am.Module, map[string]int) {
 		g.debugInfo()
 	}
 	g.order()
+	g.dsoLocalEquivalents()
 	for _, d := range g.M.U.Defs {
 		if typeMentions(d.Fields, map[string]bool{}, g.M.U, d.Name) {
 			g.feat("type/recursive")
@@ -431,6 +434,53 @@ func (g *G) aliases() {
 	}
 }
 
+// ifuncs adds indirect functions: `@i = ifunc FT, FT* ()* @resolver` with a hand-written resolver
+// definition that returns the address of an existing function of type FT (LLVM 14 wants the resolver
+// to be a definition of type `FT* ()`), and sometimes a global that takes the ifunc's address.
+// Called after the headers and before the bodies, so that bodies can refer to the ifuncs.
+func (g *G) ifuncs() {
+	if g.off("ifunc") || !g.chance("ifuncs", 1, 4) {
+		return
+	}
+	var cands []*am.Fun
+	for _, f := range g.M.Funcs {
+		if f.AddrSpace == 0 {
+			cands = append(cands, f)
+		}
+	}
+	if len(cands) == 0 {
+		return
+	}
+	if g.prebuilt == nil {
+		g.prebuilt = map[*am.Fun]bool{}
+	}
+	for k := g.rng("nifuncs", 1, 2); k > 0; k-- {
+		target := cands[g.intn("ifunctarget", len(cands))]
+		ft := target.FuncType()
+		res := &am.Fun{Name: g.globalName("resolver"), Ret: am.P(ft), Linkage: g.pick("reslink", []string{"internal", "private", ""})}
+		blk := &am.Block{Func: res, Index: 0}
+		if g.chance("resentryname", 1, 2) {
+			blk.Name = "entry"
+		}
+		blk.Term = &am.Inst{Op: "ret", Args: []*am.Value{{K: am.VConst, C: &am.Const{K: am.CGlobal, T: target.PtrType(), Ref: target}}}}
+		res.Blocks = []*am.Block{blk}
+		g.prebuilt[res] = true
+		g.M.Funcs = append(g.M.Funcs, res)
+		a := &am.Alias{Name: g.globalName("ifn"), T: ft, IFunc: true}
+		a.Aliasee = &am.Const{K: am.CGlobal, T: res.PtrType(), Ref: res}
+		a.Linkage = g.pick("iflink", []string{"", "private", "internal", "weak", "weak_odr", "linkonce", "linkonce_odr", "external"})
+		if a.Linkage != "private" && a.Linkage != "internal" {
+			a.Visibility = g.pick("ifvis", []string{"", "", "hidden", "protected"})
+		}
+		g.M.Aliases = append(g.M.Aliases, a)
+		g.feat("top/ifunc")
+		if g.chance("ifuncuser", 1, 2) {
+			g.M.Globals = append(g.M.Globals, &am.Global{Name: g.globalName("ifuser"), T: am.P(ft), Linkage: "internal", Init: &am.Const{K: am.CGlobal, T: am.P(ft), Ref: a}})
+			g.feat("top/ifunc-address-taken")
+		}
+	}
+}
+
 func (g *G) attrGroups() {
 	n := g.rng("nattrgroups", 0, 2)
 	if g.cfg.Big {
@@ -671,6 +721,95 @@ func typeMentions(ts []*am.Type, seen map[string]bool, u *am.Universe, target st
 		}
 	}
 	return false
+}
+
+// fnAddrGlobals adds globals initialised with `no_cfi @f`, directly and under a ptrtoint.
+// (dso_local_equivalent is only produced inside function bodies, see dsoLocalEquivalents.)
+func (g *G) fnAddrGlobals() {
+	if g.off("fnaddr-wrappers") || len(g.M.Funcs) == 0 || !g.chance("fnaddrglobals", 1, 4) {
+		return
+	}
+	for k := g.rng("nfnaddr", 1, 2); k > 0; k-- {
+		f := g.M.Funcs[g.intn("fnaddrf", len(g.M.Funcs))]
+		c := &am.Const{K: am.CNoCFI, T: f.PtrType(), Ref: f}
+		t := f.PtrType()
+		if g.chance("fnaddrp2i", 1, 3) {
+			c = &am.Const{K: am.CExpr, T: am.I64, Expr: &am.Expr{Op: "ptrtoint", To: am.I64, Args: []*am.Const{c}, InRange: -1}}
+			t = am.I64
+		}
+		g.M.Globals = append(g.M.Globals, &am.Global{Name: g.fresh("fnaddr"), T: t, Linkage: "internal", Constant: g.chance("fnaddrconst", 1, 2), Init: c})
+		g.feat("const/no_cfi")
+	}
+}
+
+// dsoLocalEquivalents rewrites some function addresses used inside function bodies to
+// `dso_local_equivalent @f`. llvm-as-14 crashes on a forward reference to the function (LLVM's defect,
+// fixed in later releases), so only functions that come earlier in the text (and in the construction
+// order, and the function itself) are eligible; global initialisers never are, because the library
+// prints globals before functions.
+func (g *G) dsoLocalEquivalents() {
+	if g.off("fnaddr-wrappers") {
+		return
+	}
+	pos := map[*am.Fun]int{}
+	for i, f := range g.M.Funcs {
+		pos[f] = i
+	}
+	textPos := map[*am.Fun]int{}
+	if g.M.Order == nil {
+		textPos = pos
+	} else {
+		k := 0
+		for _, t := range g.M.Order {
+			if t.K == am.TopFunc {
+				textPos[g.M.Funcs[t.Idx]] = k
+				k++
+			}
+		}
+	}
+	for _, user := range g.M.Funcs {
+		var visit func(c *am.Const)
+		visit = func(c *am.Const) {
+			if c == nil {
+				return
+			}
+			if c.K == am.CGlobal {
+				if f, ok := c.Ref.(*am.Fun); ok && pos[f] <= pos[user] && textPos[f] <= textPos[user] && g.chance("dsoeq", 1, 3) {
+					c.K = am.CDSOLocalEq
+					g.feat("const/dso_local_equivalent")
+				}
+				return
+			}
+			for _, e := range c.Elems {
+				visit(e)
+			}
+			if c.Expr != nil {
+				for _, a := range c.Expr.Args {
+					visit(a)
+				}
+			}
+		}
+		val := func(v *am.Value) {
+			if v != nil && v.K == am.VConst {
+				visit(v.C)
+			}
+		}
+		for _, b := range user.Blocks {
+			insts := append([]*am.Inst{}, b.Insts...)
+			if b.Term != nil {
+				insts = append(insts, b.Term)
+			}
+			for _, in := range insts {
+				for _, a := range in.Args {
+					val(a)
+				}
+				for _, inc := range in.Incs {
+					val(inc.V)
+				}
+				val(in.Callee)
+			}
+		}
+	}
 }
 
 // blockAddrGlobal adds a global whose initialiser takes the address of blocks of defined functions
